@@ -257,6 +257,7 @@ func init() {
 			{ID: "C01-leaf", Floor: 1, Run: c01Leaf, Text: "[LAYOUT] Bridge.Hash ≡ contract getLeafValue"},
 			{ID: "C01-step", Floor: 6, Run: c01Step, Text: "[TREE]+[LAYOUT] orientation / level indexing of AddLeaf and initCache; node hash; zero hashes"},
 			{ID: "C01-feed", Floor: 14, Run: c01Feed, Text: "[PROV]+[DOM]+[FIELDMAP] leaf fed from the same event; no row without leaf; downloader field map"},
+			{ID: "C01-store", Floor: 6, Run: c08Store, Text: "(shared with C08-store) every path node is stored; not-found only for missing rows; last root by (block_num, block_position) — what initCache rebuilds the frontier from after a restart"},
 			{ID: "C01-restart", Floor: 8, Run: c01Restart, Text: "[WHO]+[DOM] sentinel, frontier writers, mismatch rebuild (shared with TX-mem); trees built on the store's database"},
 		},
 	})
